@@ -5,11 +5,18 @@
      term passed the accuracy test, and raises iff no order in the range passed — it can never return
      after exhausting the range                                                    : C16_returns_iff, C16_raises_iff
    * the returned order is below the expansion limit                               : C16_return_below_limit
-  How far the returned state is from exp(−iHt)ψ is a statement about the remainder of the series; the
-  break test looks at the last term only, so the remainder can exceed the requested accuracy when the
-  norm ‖Ht‖ is larger than the break order (a recorded finding); the distance is measured against expm
-  of the exact Spec matrix by the correspondence.
+   * the remainder of the Taylor series after a break at order k: when ‖tH‖ ≤ (k+1)/2 the omitted terms, any
+     number of them, add up to less than the requested accuracy (any ordered field, abstract term-norm
+     bounds)                                                                       : C16_taylor_tail
+  The break test looks at the last term only, so without ‖tH‖ ≤ (k+1)/2 the remainder can exceed the requested
+  accuracy (a recorded finding); the distance to exp(−iHt)ψ is measured against expm of the exact Spec matrix by
+  the correspondence.
 -/
+import Mathlib.Algebra.Order.Field.Basic
+import Mathlib.Algebra.BigOperators.Group.Finset.Basic
+import Mathlib.Tactic.Ring
+import Mathlib.Tactic.Linarith
+import Mathlib.Tactic.Positivity
 import FqeVerif.Model.Algo
 import FqeVerif.Generated.GuardInventory
 namespace C16
@@ -195,5 +202,56 @@ def C16_series_skeletonReviewed : List String := ["if not isinstance(expansion, 
 set_option maxRecDepth 100000 in
 theorem C16_series_skeleton : (GenGuards.decisionSkeleton.find? (fun e => e.1 == "src/fqe/wavefunction.py" && e.2.1 == "Wavefunction.apply_generated_unitary")).map (·.2.2) =
     some C16_series_skeletonReviewed := by decide +kernel
+
+/-! ### the remainder of the Taylor series after the break -/
+
+section tail
+variable {K : Type} [Field K] [LinearOrder K] [IsStrictOrderedRing K]
+
+/-- a sequence whose terms at least halve from index `k` on: every finite tail after `k` is bounded by term `k` -/
+theorem tail_le_of_halving (t : Nat → K) (k : Nat) (hpos : ∀ j, 0 ≤ t j)
+    (hhalf : ∀ j, k ≤ j → t (j + 1) ≤ t j / 2) :
+    ∀ n, (∑ i ∈ Finset.range n, t (k + 1 + i)) ≤ t k - t (k + n) := by
+  intro n
+  induction n with
+  | zero => simp
+  | succ n ih =>
+    rw [Finset.sum_range_succ]
+    have h1 := hhalf (k + n) (by omega)
+    have e : k + 1 + n = k + n + 1 := by omega
+    have e2 : k + (n + 1) = k + n + 1 := by omega
+    rw [e, e2]
+    have := hpos (k + n + 1)
+    linarith
+
+/-- **Taylor remainder after the break.**  Let `ν j` bound the norm of the `j`-th term of the series
+    (`ν (j+1) ≤ x/(j+1) · ν j`, which holds for `‖(−itH)^j ψ‖ / j!` with `x = ‖tH‖`).  If the loop breaks at order `k`
+    because `ν k < accuracy`, and `x ≤ (k+1)/2`, then the terms omitted after order `k` — any number of them — add up to
+    less than `accuracy`: the returned state is within the requested accuracy of every longer partial sum (hence of
+    the limit).  Without `x ≤ (k+1)/2` the statement fails (recorded finding: the test looks at the last term only). -/
+theorem C16_taylor_tail (ν : Nat → K) (x acc : K) (k : Nat) (hν : ∀ j, 0 ≤ ν j)
+    (hstep : ∀ j, ν (j + 1) ≤ x / ((j : K) + 1) * ν j) (hk : x ≤ ((k : K) + 1) / 2) (hbreak : ν k < acc) :
+    ∀ n, (∑ i ∈ Finset.range n, ν (k + 1 + i)) < acc := by
+  intro n
+  have hhalf : ∀ j, k ≤ j → ν (j + 1) ≤ ν j / 2 := by
+    intro j hj
+    have hj' : (k : K) ≤ (j : K) := by exact_mod_cast hj
+    have hpos : (0 : K) < (j : K) + 1 := by positivity
+    have hq : x / ((j : K) + 1) ≤ 1 / 2 := by
+      rw [div_le_iff₀ hpos]
+      linarith
+    calc ν (j + 1) ≤ x / ((j : K) + 1) * ν j := hstep j
+      _ ≤ 1 / 2 * ν j := mul_le_mul_of_nonneg_right hq (hν j)
+      _ = ν j / 2 := by ring
+  have := tail_le_of_halving ν k hν hhalf n
+  have := hν (k + n)
+  linarith
+
+/-- the premises are satisfiable: `ν j = (1/4)^j` with `x = 1/4`, break at `k = 2` for accuracy `1/10` -/
+example : (∑ i ∈ Finset.range 3, ((1 : ℚ) / 4) ^ (2 + 1 + i)) < 1 / 10 := by
+  norm_num [Finset.sum_range_succ]
+
+
+end tail
 
 end C16
